@@ -400,39 +400,47 @@ impl SqPackData {
     fn read_texture_file(&mut self, offset: u64, file_info: &FileInfo) -> Option<ByteBuffer> {
         let texture_file_info = file_info.texture_info.as_ref()?;
 
-        let mut data: Vec<u8> = Vec::with_capacity(file_info.file_size as usize);
+        // sizes, offsets and counts below come from the entry header: nothing is reserved up front for them,
+        // and every position is computed with overflow checks
+        let mut data: Vec<u8> = Vec::new();
+
+        let base_offset = offset.checked_add(file_info.size as u64)?;
 
         // write the header if it exists
-        let mipmap_size = texture_file_info.lods[0].compressed_size;
+        let first_lod = texture_file_info.lods.first()?;
+        let mipmap_size = first_lod.compressed_size;
         if mipmap_size != 0 {
             let original_pos = self.file.stream_position().ok()?;
 
-            self.file
-                .seek(SeekFrom::Start(offset + file_info.size as u64))
-                .ok()?;
+            self.file.seek(SeekFrom::Start(base_offset)).ok()?;
 
-            let mut header = vec![0u8; texture_file_info.lods[0].compressed_offset as usize];
-            self.file.read_exact(&mut header).ok()?;
+            let header_length = first_lod.compressed_offset as u64;
+            let mut header = Vec::new();
+            (&mut self.file)
+                .take(header_length)
+                .read_to_end(&mut header)
+                .ok()?;
+            if header.len() as u64 != header_length {
+                return None;
+            }
 
             data.append(&mut header);
 
             self.file.seek(SeekFrom::Start(original_pos)).ok()?;
         }
 
-        for i in 0..texture_file_info.num_blocks {
-            let mut running_block_total = (texture_file_info.lods[i as usize].compressed_offset
-                as u64)
-                + offset
-                + (file_info.size as u64);
+        for lod in &texture_file_info.lods {
+            let mut running_block_total = base_offset.checked_add(lod.compressed_offset as u64)?;
 
-            for _ in 0..texture_file_info.lods[i as usize].block_count {
+            for _ in 0..lod.block_count {
                 let original_pos = self.file.stream_position().ok()?;
 
                 data.append(&mut read_data_block(&self.file, running_block_total)?);
 
                 self.file.seek(SeekFrom::Start(original_pos)).ok()?;
 
-                running_block_total += self.file.read_le::<i16>().ok()? as u64;
+                running_block_total = running_block_total
+                    .checked_add(u64::try_from(self.file.read_le::<i16>().ok()?).ok()?)?;
             }
         }
 
